@@ -13,6 +13,7 @@ C01(r) == r.eok => /\ r.dok
                       ELSE Equivalent(r.in, r.out, r.m, r.gt = "mesh")
 C03(r) == r.dok => StructValid(r.sv) /\ (r.skipok => StructValid(r.sv2))
 C06(r) == r.eok => /\ r.h_enc1 = r.h_enc2                       \* encoding twice (fresh / reused objects): identical bytes
+                   /\ r.dok = r.trailok                         \* bytes after the stream change neither the result nor whether there is one
                    /\ r.dok => /\ r.h_dec1 = r.h_dec2            \* decoding twice: identical geometry in identical order
                                /\ r.trailok /\ r.h_dec1 = r.h_dec_trail   \* bytes after the stream do not matter
                                /\ r.remaining0 = 0 /\ r.remaining = r.trail   \* a successful decode consumes exactly the stream
